@@ -5,7 +5,26 @@ import (
 	"fmt"
 	"os"
 
+	"verifharness/internal/c01"
+	"verifharness/internal/c02"
+	"verifharness/internal/c03"
+	"verifharness/internal/c04"
+	"verifharness/internal/c05"
+	"verifharness/internal/c06"
+	"verifharness/internal/c07"
 	"verifharness/internal/c08"
+	"verifharness/internal/c09"
+	"verifharness/internal/c10"
+	"verifharness/internal/c11"
+	"verifharness/internal/c12"
+	"verifharness/internal/c13"
+	"verifharness/internal/c14"
+	"verifharness/internal/c15"
+	"verifharness/internal/c16"
+	"verifharness/internal/c17"
+	"verifharness/internal/c18"
+	"verifharness/internal/c19"
+	"verifharness/internal/c20"
 	"verifharness/internal/vh"
 )
 
@@ -16,10 +35,52 @@ func main() {
 	}
 	var it vh.Interp
 	switch os.Args[1] {
+	case "C01":
+		it = c01.New()
+	case "C02":
+		it = c02.New()
+	case "C03":
+		it = c03.New()
+	case "C04":
+		it = c04.New()
+	case "C05":
+		it = c05.New()
+	case "C06":
+		it = c06.New()
+	case "C07":
+		it = c07.New()
 	case "C08":
 		it = c08.New()
+	case "C09":
+		it = c09.New()
+	case "C10":
+		it = c10.New()
+	case "C11":
+		it = c11.New()
+	case "C12":
+		it = c12.New()
+	case "C13":
+		it = c13.New()
+	case "C14":
+		it = c14.New()
+	case "C15":
+		it = c15.New()
+	case "C16":
+		it = c16.New()
+	case "C17":
+		it = c17.New()
+	case "C18":
+		it = c18.New()
+	case "C19":
+		it = c19.New()
+	case "C20":
+		it = c20.New()
 	default:
 		fmt.Fprintln(os.Stderr, "unknown property", os.Args[1])
+		os.Exit(2)
+	}
+	if it == nil {
+		fmt.Fprintln(os.Stderr, "no interpreter for", os.Args[1])
 		os.Exit(2)
 	}
 	vh.Main(it, os.Args[2:])
